@@ -320,14 +320,22 @@ func TplMap(tags ...string) Templates {
 
 // Converge runs the closure from s and returns the converged state (fatal harness error if it does not converge).
 func Converge(t *testing.T, sc *Scenario, s *State) *State {
+	f, why := TryConverge(t, sc, s)
+	if f == nil {
+		panic(why)
+	}
+	return f
+}
+
+// TryConverge is Converge without the panic: nil and a description when the set-up does not reach a fixpoint.
+func TryConverge(t *testing.T, sc *Scenario, s *State) (*State, string) {
 	r := Closure(t, sc, s, ClosureOpts{SkipJumps: true, Trace: true})
 	if !r.Converged {
-		panic(fmt.Sprintf("scenario %s: initial closure did not converge: %s\n%s\n%s", sc.Name, r.Why, strings.Join(r.Trace, "\n"), strings.Join(r.Final.Describe(), "\n")))
+		return nil, fmt.Sprintf("scenario %s: initial closure did not converge: %s\n%s\n%s", sc.Name, r.Why, strings.Join(r.Trace, "\n"), strings.Join(r.Final.Describe(), "\n"))
 	}
 	f := r.Final
 	f.Budget = s.Budget
-	// restart the clock so that every scenario begins at a whole, small instant
-	return f
+	return f, ""
 }
 
 // SortedKeys is a small helper for deterministic map iteration in harness code.
